@@ -5,6 +5,8 @@ CONSTANTS
   FbStartStop = {TRUE, FALSE}
   Rules <- RulesSS
   Events <- EventsS
+  BadRules <- BadNone
+  MaxRejected = 0
   MaxRules = 3
   MaxStatus = 0
   MaxRuns = 2
